@@ -333,7 +333,7 @@ func TestExhaustiveAPIHandlerPanics(t *testing.T) {
 		}
 	}
 	stats.CaseN(n, n, "exhaustive_api_endpoint_x_value_x_method_x_position")
-	stats.Exhaustive("development mode (off, on) x API endpoint type (7) x panic value (13: nil, error, string, runtime index, nil deref, struct, custom error type, context.Canceled, wrapped context.Canceled, typed nil error pointer, slice, map, struct holding a slice) x method class (GET, POST) x position (alone, first, last)")
+	stats.Exhaustive("development mode (off, on) x API endpoint type (7) x panic value (14: nil, error, string, runtime index, nil deref, struct, custom error type, context.Canceled, wrapped context.Canceled, typed nil error pointer, slice, map, struct holding a slice, *ModuleError) x method class (GET, POST) x position (alone, first, last)")
 }
 
 func TestPropAPIHandlerPanics(t *testing.T) {
